@@ -8,7 +8,7 @@ CFG = dict(nops=3, maxdim=14, init="zero", p_clip=0.0, p_layer=0.0, p_xf=0.3, p_
            draw_kinds=["fill"], curves=1.0, p_zero_dim=0.0)
 RULE = ("paths mixing move/line/quad/cubic/close with arbitrary (non-monotonic, looping, cusped, coincident) control points, "
         "quarter-grid and general, both winding rules, under identity, exact-family and general invertible transforms, filled "
-        "and used as clip paths: all pixels are compared with the model (integer curve edges; lyon's cubic-to-quadratic "
+        "and used as clip paths, also built with PathBuilder::arc as the first call, after lines and directly after close(): all pixels are compared with the model (integer curve edges; lyon's cubic-to-quadratic "
         "output supplied by the harness); the statement is evaluated in f64 on white-on-transparent fills: the winding number "
         "of a 128-segment-per-curve flattening of the transformed path decides inside/outside (shapes up to 64 px, and large user-space shapes under down-scaling transforms included), pixels farther than 1 px "
         "(+ half diagonal) from the outline must be 255 inside and 0 outside; non-trivial = path with a curve that painted "
@@ -43,6 +43,19 @@ def fine_polygons(ops, m):
             full = [cur] + ctrl
             cp = geom.curve_points(o[0], full, 128)
             pts.extend(cp[1:]); cur = ctrl[-1]
+        elif o[0] == "A":
+            # PathBuilder::arc: a straight line from the current point to the arc's first point, then the circle from the
+            # start angle over the sweep (at most one full turn)
+            x, y, r, a0, sw = o[1:6]
+            sw = max(-2 * math.pi, min(2 * math.pi, sw))
+            p = T((x + r * math.cos(a0), y + r * math.sin(a0)))
+            if cur is None:
+                first = p; pts = []
+            pts.append(p)
+            for k in range(1, 129):
+                a = a0 + sw * k / 128.0
+                pts.append(T((x + r * math.cos(a), y + r * math.sin(a))))
+            cur = pts[-1]
         elif o[0] == "Z":
             close()
     if len(pts) > 1:
@@ -101,6 +114,27 @@ def pixel_oracle(ctx):
         xf = scene.rand_xf(rng, general=0.6)
         if xf[0] * xf[3] - xf[1] * xf[2] == 0:
             xf = scene.IDENT
+        if kind == 6:
+            # paths built with PathBuilder::arc among the other calls: as the first call, directly after close(), after
+            # lines; the exact shape has a straight edge from the current point (after close: the subpath's start) to
+            # the arc's first point
+            W = H = 40
+            def P():        # polygon vertices: upper left part of the surface
+                return (rng.randrange(0, 2 * W) / 4.0, rng.randrange(0, 2 * H) / 4.0)
+            def arc():      # arcs: lower right part, pixels wide, so that the edge joining them to the path encloses area
+                c = (rng.randrange(2 * W, 3 * W + W // 2) / 4.0, rng.randrange(2 * H, 3 * H + H // 2) / 4.0)
+                return "A %d %d %d %d %d" % (FB(c[0]), FB(c[1]), FB(rng.choice([5.0, 7.5, 9.0, 3.0])), FB(rng.choice([0.0, 1.0, math.pi / 2, -2.0, 4.0])),
+                                           FB(rng.choice([math.pi, -math.pi, 1.5, -2.5, 2 * math.pi, math.pi / 2, 4.0, -1.0, 2.5, -4.5, 7.0])))
+            form = rng.choice([0, 1, 1, 1, 2, 3, 3])
+            if form == 0:
+                ops = [arc()] + (["L " + scene.fpt(*P())] if rng.random() < 0.5 else []) + (["Z"] if rng.random() < 0.5 else [])
+            elif form == 1:
+                ops = ["M " + scene.fpt(*P()), "L " + scene.fpt(*P()), "L " + scene.fpt(*P()), "Z", arc()] + (["Z"] if rng.random() < 0.5 else [])
+            elif form == 2:
+                ops = ["M " + scene.fpt(*P()), "L " + scene.fpt(*P()), arc(), "L " + scene.fpt(*P())]
+            else:
+                ops = ["M " + scene.fpt(*P()), arc(), "Z", arc()]
+            xf = scene.IDENT if rng.random() < 0.5 else xf
         if kind == 7:
             # curves hundreds of pixels long of which the surface sees a small window (zoomed-in content): forward
             # differencing with many steps, edges that start far above / left of the surface
@@ -118,12 +152,12 @@ def pixel_oracle(ctx):
             flip = rng.random() < 0.3
             xf = (k, 0.0, 0.0, -k if flip else k, rng.choice([0.0, 0.25, 3.0]), float(H) if flip else rng.choice([0.0, 0.5]))
         ptoks = scene.path_tokens(ops, rule)
-        if i % 3 == 2:
+        if i % 3 == 2 and kind != 6:
             body = "clippath %s ; fillrect %d %d %d %d solid ffffffff 1 %d 1" % (ptoks, FB(-100.0), FB(-100.0), FB(400.0), FB(400.0), FB(1.0))
         else:
             body = "fill %s solid ffffffff 3 %d 1" % (ptoks, FB(1.0))
         scenes.append("scene %d %d %d I %s ; xf %s ; %s" % (i, W, H, " ".join(["00000000"] * (W * H)), scene.xf_tokens(xf), body))
-        meta.append((ops, rule, xf, i % 3 == 2))
+        meta.append((ops, rule, xf, i % 3 == 2 and kind != 6))
     eval_scenes(ctx, scenes, meta)
 
 
@@ -142,6 +176,8 @@ def eval_scenes(ctx, scenes, meta, what="px"):
             t = o.split()
             if t[0] == "C":
                 t = t[:7]
+            if t[0] == "A":
+                t = t[:6]
             tops.append((t[0],) + tuple(bits_f32(int(v)) for v in t[1:]))
         if isclip:
             # the fill_rect under the clip is itself transformed; it covers everything only for mild transforms
